@@ -143,8 +143,88 @@ class _Canon(ast.NodeTransformer):
         return node
 
 
+class _CanonStmts(ast.NodeTransformer):
+    """Statement-level canonical spellings:
+
+      * `x = x <op> e`                      -> `x <op>= e`            (plain names)
+      * `if a: (if b: X)` (no else on both) -> `if a and b: X`
+      * `t = e; return t` (t used nowhere else in the function) -> `return e`
+    """
+
+    def __init__(self):
+        self.uses: list[dict[str, int]] = []
+
+    def _count(self, fn):
+        """names whose every occurrence is in an adjacent `x = e; return x` pair"""
+        c: dict[str, int] = {}
+        pairs: dict[str, int] = {}
+        for n in ast.walk(fn):
+            if isinstance(n, ast.Name):
+                c[n.id] = c.get(n.id, 0) + 1
+            for fld in ("body", "orelse", "finalbody"):
+                b = getattr(n, fld, None)
+                if isinstance(b, list):
+                    for st, nxt in zip(b, b[1:]):
+                        if (isinstance(st, ast.Assign) and len(st.targets) == 1 and isinstance(st.targets[0], ast.Name)
+                                and isinstance(nxt, ast.Return) and isinstance(nxt.value, ast.Name) and nxt.value.id == st.targets[0].id):
+                            pairs[nxt.value.id] = pairs.get(nxt.value.id, 0) + 1
+        return {k: 2 for k, v in pairs.items() if c.get(k, 0) == 2 * v}
+
+    def visit_FunctionDef(self, node):
+        self.uses.append(self._count(node))
+        self.generic_visit(node)
+        self.uses.pop()
+        return node
+
+    visit_AsyncFunctionDef = visit_FunctionDef
+
+    def visit_Assign(self, node):
+        self.generic_visit(node)
+        if (len(node.targets) == 1 and isinstance(node.targets[0], ast.Name) and isinstance(node.value, ast.BinOp)
+                and isinstance(node.value.left, ast.Name) and node.value.left.id == node.targets[0].id):
+            return ast.copy_location(ast.AugAssign(target=node.targets[0], op=node.value.op, value=node.value.right), node)
+        return node
+
+    def visit_If(self, node):
+        self.generic_visit(node)
+        if not node.orelse and len(node.body) == 1 and isinstance(node.body[0], ast.If) and not node.body[0].orelse:
+            inner = node.body[0]
+            vals = []
+            for t in (node.test, inner.test):
+                vals += t.values if isinstance(t, ast.BoolOp) and isinstance(t.op, ast.And) else [t]
+            node.test = ast.copy_location(ast.BoolOp(op=ast.And(), values=vals), node.test)
+            node.body = inner.body
+        return node
+
+    def generic_visit(self, node):
+        super().generic_visit(node)
+        if self.uses:
+            for fld in ("body", "orelse", "finalbody"):
+                b = getattr(node, fld, None)
+                if isinstance(b, list) and len(b) >= 2 and isinstance(b[0], ast.stmt):
+                    setattr(node, fld, self._fold_returns(b))
+        return node
+
+    def _fold_returns(self, body):
+        out = []
+        i = 0
+        while i < len(body):
+            st = body[i]
+            nxt = body[i + 1] if i + 1 < len(body) else None
+            if (isinstance(st, ast.Assign) and len(st.targets) == 1 and isinstance(st.targets[0], ast.Name)
+                    and isinstance(nxt, ast.Return) and isinstance(nxt.value, ast.Name) and nxt.value.id == st.targets[0].id
+                    and self.uses[-1].get(st.targets[0].id, 0) == 2):
+                out.append(ast.copy_location(ast.Return(value=st.value), st))
+                i += 2
+                continue
+            out.append(st)
+            i += 1
+        return out
+
+
 def canonicalise(tree: ast.AST) -> ast.AST:
     tree = _Canon().visit(tree)
+    tree = _CanonStmts().visit(tree)
     ast.fix_missing_locations(tree)
     return tree
 
